@@ -675,6 +675,30 @@ def sce_program(rng, B=None):
         g.close()
 
 
+def pown_program(rng):
+    """pown(x, k) on both APIs for exponents on both sides of every integer-width and float-mantissa boundary
+    (|k| around 2^24 and 2^31, odd and even), on bases -1, 1, -2, 0 and small integers: the exponent must reach
+    the kernel as the int32 the caller passed."""
+    g = Gen(rng)
+    try:
+        dims = [rng.choice([1, 2, 3]) for _ in range(rng.choice([1, 1, 2]))]
+        xs = [g.new_input(dims, rng.choice([1, 2]), lo=-2, hi=2), g.new_param(dims, lo=-1, hi=1)]
+        ks = [16777215, 16777216, 16777217, 16777219, -16777217, -16777216, 33554431, 33554433, 1000000007, -1000000007,
+              1073741823, 1073741825, 2147483646, 2147483647, -2147483647, -2147483648, 255, 256, 257, 65535, 65537, 3, -3, 0]
+        rng.shuffle(ks)
+        for k in ks[: rng.randint(8, len(ks))]:
+            for x in xs:
+                if x is None:
+                    continue
+                y = g.let("pown", [x.name, k])
+                if y is not None:
+                    g.emit("force " + y.name)
+        g.emit("nops")
+        return g.lines
+    finally:
+        g.close()
+
+
 def device_program(rng):
     """Programs over several devices on both APIs: copy with the device argument omitted (the default device), copy to a
     named device, and binary functions whose LEFT operand is a scalar on another device than the right operand."""
